@@ -30,7 +30,7 @@ PROPS = {
     },
     'C15': {
         'lean_modules': ['C15', 'C15p'],
-        'engines': [('ids', 200, 2000), ('idconc', 1, 1), ('initid', 2000, 200000), ('apipub', 150, 3000), ('rhandle', 1, 1), ('idreuse', 1, 1), ('retry', 150, 1000)],
+        'engines': [('ids', 200, 2000), ('idconc', 1, 1), ('initid', 2000, 200000), ('apipub', 150, 3000), ('rhandle', 1, 1), ('idreuse', 1, 1), ('retry', 150, 1000), ('idseq', 20, 300)],
         'rule': 'id sequences from counter values around every wrap point (uint16 and uint32) compared with the model; full 65535-call '
                 'windows checked for duplicates; concurrent callers (2..64 goroutines) checked for duplicates and zero',
         'partial': 'the statement "unique among outstanding requests" is proved for requests issued within the last 65535 issues '
@@ -153,7 +153,7 @@ PROPS = {
     },
     'C11': {
         'lean_modules': ['C11', 'C11t'],
-        'engines': [('bc', 400, 4000), ('rhandle', 1, 1), ('servewf', 1, 1), ('hcall', 1, 1)],
+        'engines': [('bc', 400, 4000), ('rhandle', 1, 1), ('servewf', 1, 1), ('hcall', 1, 1), ('retry', 150, 800)],
         'rule': 'scripts over the base client LTS: API calls (Connect, Publish QoS 1/2, Subscribe, Unsubscribe, Ping, Disconnect) started at scripted points, acknowledgements in a scripted order (own, foreign, wrong-kind, unsolicited, SUBACK with right / wrong count), cancellation of any call, peer close, local Close, malformed packet, write refusal; the thorough tier enumerates every request kind x every step of its exchange x every cause, alone and with 1-4 other blocked calls; non-trivial = at least one call was made',
         'assumptions': ['registration of a waiter and the write of its request are one atomic step (no acknowledgement can precede the request)',
                         'goroutine scheduling and channel semantics of Go are not formalised: each blocking select is modelled by its three exits',
@@ -168,7 +168,7 @@ PROPS = {
     },
     'C10': {
         'lean_modules': ['C10', 'C10f'],
-        'engines': [('racebase', 6, 30), ('racereconn', 6, 30)],
+        'engines': [('racebase', 6, 30), ('racereconn', 6, 30), ('hcall', 1, 1)],
         'race': [('racebase', 6, 20), ('racereconn', 8, 24)],
         'race_rounds': 1, 'race_rounds_thorough': 6,
         'rule': 'concurrent compositions: 2-16 goroutines issuing Publish QoS0/1/2, Subscribe, Unsubscribe, Ping, Handle, Stats, Err, Done '
